@@ -1086,7 +1086,13 @@ def _read_unary_response(
     """Read a unary response: skip logs, extract result, deserialize."""
     try:
         batch = _read_batch_with_log_check(reader, on_log, external_config, shm=shm)
-    except RpcError:
+    except (pa.ArrowInvalid, OSError, EOFError):
+        # The transport is broken or the bytes are not Arrow IPC: nothing to drain.
+        raise
+    except Exception:
+        # RpcError from the server, or an exception raised by the caller's
+        # on_log callback: consume the rest of the response so the next call on
+        # this connection does not read it as its own.
         _drain_stream(reader)
         raise
     try:
